@@ -134,6 +134,23 @@ example : ∃ code, multiSigCode 2 [tk 1, tk 2, tk 3] = some code ∧
     runPrograms Fix.all toy2 () [⟨PrefixMultiSig, toy2.codeHash code⟩] [⟨code, sigChunks [(tk 3, ts 3), (tk 1, ts 1)]⟩] = ok :=
   ⟨_, rfl, by decide⟩
 
+/-- **Client.MultiSign (SignMultiSignTransactionByM).** A wallet holding `k` of the script's keys (whatever their
+    positions) appends exactly `min k (m+1)` signatures; so with `k ≥ m` keys the parameter carries between m and
+    m+1 ≤ … signatures of distinct keys and `C37_wallet_multisig_accepts` applies. -/
+theorem C37_signByM_count (m : Nat) (held : List Bool) :
+    signByM m held 0 = min (held.count true) (m + 1) := by
+  have := signByM_spec m held 0 (Nat.zero_le _)
+  simpa using this
+
+theorem C37_signByM_enough (m : Nat) (held : List Bool) (h : m ≤ held.count true) : m ≤ signByM m held 0 := by
+  rw [C37_signByM_count]; omega
+
+/-- NEGATION for the variant that uses the script position as signer index: a 2-of-4 wallet holding the keys at
+    positions 2 and 3 stops after one signature; 3-of-5 with positions 0, 3, 4 after two. -/
+theorem C37_signByM_position_false :
+    signByMPos 2 [false, false, true, true] 0 0 = 1 ∧ signByMPos 3 [true, false, false, true, true] 0 0 = 2 ∧
+    signByM 2 [false, false, true, true] 0 = 2 ∧ signByM 3 [true, false, false, true, true] 0 = 3 := by decide
+
 /-- non-vacuity with the toy scheme of C05 -/
 example : runPrograms Fix.all ElaVerif.C05.toy ()
     [⟨0x21, ElaVerif.C05.toy.codeHash (standardCode (5 :: List.replicate 32 0))⟩]
